@@ -117,6 +117,19 @@ CLAIMED['C09'] = dict(
          '(partial). Four real defects found and repaired (fix: commits); known findings: metric order in StudyConfig, UNIFORM_DISCRETE.'),
    note=BASE_TB + ' Exact rational arithmetic stands for IEEE doubles (bit-exact agreement is checked on dyadic inputs only); MetricInformation min/max values, fractional step counts and empty descriptions are not round-tripped by the code and are outside the generator.',
    technique='Rocq proof (nested structural induction; translator-generated enum tables) + vm_compute correspondence + round-trip monitors', design='5/C09')
+CLAIMED['C16'] = dict(
+   text=('Theorems (closed under the global context): ParameterConfig.contains is True exactly for values inside the domain '
+         '(C16_parameter_contains_iff, for ints, floats incl. nan/+-inf, strings, bools); a flat SearchSpace accepts an assignment iff its '
+         'keys are exactly the parameter names and every value is in its domain (C16_space_contains_iff, pigeonhole on key sets); factory '
+         'rejects empty names, bounds+feasible, duplicate / mixed / non-finite feasible values, non-finite / reversed / mixed bounds, and '
+         'space.add rejects duplicate names (one theorem per class); accepted definitions are normalised (sorted feasible values as a '
+         'permutation of the input, ordered finite bounds, inferred type); SequentialParameterBuilder (dfs and bfs) visits exactly the '
+         'parameters active under the chosen values for every conditional tree (C16_builder_visits_exactly_active). Tie: factory / contains / '
+         'SearchSpace.contains / SequentialParameterBuilder compared with the model on generated definitions, near-miss assignments and '
+         'conditional spaces; conditional membership must raise NotImplementedError; Study.add_trial must refuse outside trials. One defect '
+         'found and repaired (OverflowError from contains).'),
+   note=BASE_TB + ' CUSTOM parameters, default-value validation and float isclose tolerances are not modelled; doubles are exact rationals plus inf/nan.',
+   technique='Rocq proof (boolean reflection of membership, sorting/permutation, worklist invariant for the builder) + vm_compute correspondence', design='5/C16')
 ALL = ['C%02d' % i for i in range(1, 21)]
 m = {
  'version': 1,
